@@ -1,6 +1,7 @@
 """C07 / C08 share this history runner: several real daemons on one index, stepped pass by pass and task by task."""
 import json
 import os
+import random
 import re
 
 import common
@@ -216,9 +217,44 @@ def compare_iterate(ctx, e, rng, n):
         init = sorted(case.usable_now(host) | set(nid for nid in case.marker_state if case.marker_state[nid] == "ok"))
         init = sorted(nid for nid in case.marker_state if case.marker_state[nid] == "ok")
         setup = case.setup_lines()
+        ireqs = []
+        if rng.random() < 0.6:
+            for _ in range(rng.randint(1, 3)):
+                nd = rng.choice(case.nodes)
+                r_ = db.ArchiveFileImportRequest.create(node=nd, path="ALPENHORN_NODE", completed=rng.random() < 0.2)
+                ireqs.append((r_.id, nd.id, int(bool(r_.completed))))
+        if rng.random() < 0.6:
+            # duplicate requests: the same file into the same group from another (or the same) source
+            pend_rows = list(db.ArchiveFileCopyRequest.select().where(db.ArchiveFileCopyRequest.completed == 0,
+                                                                      db.ArchiveFileCopyRequest.cancelled == 0))
+            for _ in range(rng.randint(1, 3)):
+                if pend_rows and rng.random() < 0.7:
+                    r0 = rng.choice(pend_rows)
+                    db.ArchiveFileCopyRequest.create(file=r0.file_id, node_from=rng.choice(case.nodes), group_to=r0.group_to_id)
+                else:
+                    c_ = list(db.ArchiveFileCopy.select().where(db.ArchiveFileCopy.has_file == "Y"))
+                    if c_:
+                        c0 = rng.choice(c_)
+                        g0 = rng.choice(case.groups)
+                        if g0.id != db.StorageNode.get(id=c0.node_id).group_id:
+                            db.ArchiveFileCopyRequest.create(file=c0.file_id, node_from=c0.node_id, group_to=g0.id)
+            setup = case.setup_lines()
         pend = case.iterate(host)
-        checks, deletes = set(), set()
+        checks, deletes, inits = set(), set(), set()
+        transfers = []
         for key, name, excl in pend:
+            m = re.match(r"Pre-pull search for (\S+) in (\S+)", name)
+            if m:
+                acq_, fname_ = m.group(1).split("/", 1)
+                f_ = db.ArchiveFile.select().join(db.ArchiveAcq).where(db.ArchiveAcq.name == acq_, db.ArchiveFile.name == fname_).get()
+                transfers.append((f_.id, db.StorageGroup.get(name=m.group(2)).id, 0))
+            m = re.match(r"AFCR#(\d+):", name)
+            if m:
+                r_ = db.ArchiveFileCopyRequest.get(id=int(m.group(1)))
+                transfers.append((r_.file_id, r_.group_to_id, 1))
+            m = re.match(r'Init Node "(\S+)"', name)
+            if m:
+                inits.add(db.StorageNode.get(name=m.group(1)).id)
             m = re.match(r"Check file (\S+) on (\S+)", name)
             if m:
                 path, nname = m.groups()
@@ -230,12 +266,30 @@ def compare_iterate(ctx, e, rng, n):
             if m and m.group(1):
                 deletes |= set(int(x) for x in m.group(1).split(","))
         hostid = {"h1": 1, "h2": 2}[host]
-        lines += setup + [f"w.q iterate {hostid} {','.join(map(str, init)) or '-'}"]
-        metas.append((len(lines) - 1, sorted(checks), sorted(deletes), host, [t[1] for t in pend]))
+        lines += setup + [f"w.q iterate {hostid} {','.join(map(str, init)) or '-'}",
+                          f"w.q initTasks {hostid} {','.join(map(str, init)) or '-'} " +
+                          (",".join(f"{a}:{b}:{c}" for a, b, c in ireqs) or "-")]
+        metas.append((len(lines) - 2, sorted(checks), sorted(deletes), host, [t[1] for t in pend], sorted(inits), sorted(transfers)))
         case.drain(host)
     outs = drv.batch(lines)
-    for idx, checks, deletes, host, names in metas:
+    for idx, checks, deletes, host, names, inits, transfers in metas:
         out = outs[idx]
+        mdis = re.search(r"dispatch:(\S+)", out).group(1)
+        mtr = sorted(tuple(int(x) for x in t.split(":")) for t in mdis.split(",")) if mdis != "-" else []
+        ctx.count("iterate:transfers-" + ("queued" if transfers else "none"))
+        # the property-level oracle: one pass never queues two transfers of the same file into the same group
+        keys = [(a, b) for a, b, _ in transfers]
+        if len(keys) != len(set(keys)):
+            ctx.violation("overlap:two-transfers-same-file-same-group", f"one update pass on {host} queued two transfers of the same "
+                          f"file into the same group: {names}", {"kind": "pass", "tasks": names, "setup": [l for l in lines[max(0, idx - 40):idx]]})
+        if mtr != transfers and len(ctx.corr_broken) < 5:
+            ctx.corr_broken.append({"stream": "update_loop-transfers-vs-iterateOps", "host": host, "real_transfers(file,group,force)": transfers,
+                                    "model": out, "tasks": names})
+        mi = sorted(int(x.split(":")[0]) for x in outs[idx + 1].split(";")) if outs[idx + 1] not in ("-", "") else []
+        ctx.count("iterate:init-" + ("queued" if inits else "none"))
+        if mi != inits and len(ctx.corr_broken) < 5:
+            ctx.corr_broken.append({"stream": "update_loop-init-tasks-vs-initTasks", "host": host, "real_init_nodes": inits,
+                                    "model": outs[idx + 1], "tasks": names})
         mc = re.search(r"check:(\S+)", out).group(1)
         md = re.search(r"delete:(\S+)", out).group(1)
         mcs = sorted(int(x) for x in mc.split(",")) if mc != "-" else []
@@ -253,13 +307,16 @@ def run(ctx):
     rng = ctx.rng
     nh = 100 if ctx.quick() else 2500
     with envmod.Env() as e:
-        compare_iterate(ctx, e, rng, 60 if ctx.quick() else 1500)
+        compare_iterate(ctx, e, rng, 200 if ctx.quick() else 4000)
         for i in range(nh):
-            case, p7, p8, log = run_history(ctx, e, rng, rng.randint(8, 30))
+            hseed = f"{ctx.prop}-{ctx.seed}-h{i}"
+            hr = random.Random(hseed)
+            case, p7, p8, log = run_history(ctx, e, hr, hr.randint(8, 30))
             ctx.case(tuple(log), nontrivial=len(log) > 5, sample={"history": log[:25]} if i == 0 else None)
             ctx.count("history:steps", len(log))
             for (p, ctxlog) in p7:
-                ctx.violation("locality:" + p[:40].replace(" ", "_"), p, {"kind": "dhistory", "last_steps": ctxlog, "history": log})
+                ctx.violation("locality:" + p[:40].replace(" ", "_"), p,
+                              {"kind": "dhistory", "hseed": hseed, "last_steps": ctxlog, "history": log})
     ctx.coverage["rule"] = ("two hosts sharing one index; nodes randomly local/remote, active/inactive, marker ok/missing/naming another node; "
                             "histories of operator changes (activation flips, host reassignment, marker changes, state overrides, sync and "
                             "import requests, external damage) interleaved with real update passes and single task executions of either "
@@ -271,5 +328,16 @@ def run(ctx):
 
 
 def replay(ctx, path):
-    print(json.dumps(json.load(open(path)), indent=1)[:4000])
-    return 1
+    """re-run the recorded history (same per-history seed) on the current tree and report what the oracle says now"""
+    d = json.load(open(path))
+    print(json.dumps({k: d[k] for k in d if k != "history"}, indent=1)[:3000])
+    if "hseed" not in d:
+        return 1
+    with envmod.Env() as e:
+        hr = random.Random(d["hseed"])
+        case, p7, p8, log = run_history(ctx, e, hr, hr.randint(8, 30))
+    for l in log:
+        print("  ", l[:200])
+    for p, _ in p7:
+        print("VIOLATION-REPRODUCED:", p)
+    return 1 if p7 else 0
